@@ -720,7 +720,20 @@ func c10CheckFlight(e *c10Expect, dgs [][]byte) (fails []c10Fail, pkts []*c10Pkt
 			return
 		}
 		pf := planChecks(planFor(i))
-		if len(pf) > 0 && !isFlight && planFor(i) != planFor(0) && len(planChecks(planFor(0))) == 0 {
+		// "governed by entry 0 instead of entry i" needs positive evidence, not just "entry 0
+		// would have been satisfied" (the zero plan is satisfied by any packet of 1200.. bytes):
+		// either entry 0 pins a size / CRYPTO length and the datagram has exactly that, or entry
+		// i's own caps were visibly not applied to the CRYPTO popped (more CRYPTO than entry i's
+		// CryptoLength, or more than a packet of entry i's PacketSize can hold even as a single
+		// frame). A re-framing builder that overshoots a cap that WAS applied is
+		// size-exact/frames-exceed, not plan-index.
+		p0, pi := planFor(0), planFor(i)
+		minCryptoFrame := 1 + len(c10AppendVarint(nil, lo)) + len(c10AppendVarint(nil, cb)) + int(cb)
+		follows0 := (p0.PacketSize > 0 && p.PacketLen == p0.PacketSize && len(dg) == p0.PacketSize) ||
+			(p0.CryptoLength > 0 && cb == uint64(p0.CryptoLength) && pi.CryptoLength != p0.CryptoLength)
+		ignoresI := (pi.CryptoLength > 0 && cb > uint64(pi.CryptoLength)) ||
+			(pi.PacketSize > 0 && crypto > 0 && p.HdrLen+minCryptoFrame+16 > pi.PacketSize && (e.MaxPacket == 0 || pi.PacketSize <= e.MaxPacket))
+		if len(pf) > 0 && !isFlight && pi != p0 && len(planChecks(p0)) == 0 && (follows0 || ignoresI) {
 			pf = append([]c10Fail{}, c10Fail{"plan-index", fmt.Sprintf("datagram %d follows InitialPackets[0] = %+v, not InitialPackets[%d] = %+v: packet %d bytes, datagram %d bytes, %d CRYPTO bytes", i, planFor(0), min(i, len(ips.InitialPackets)-1), planFor(i), p.PacketLen, len(dg), cb)})
 		}
 		fails = append(fails, pf...)
